@@ -151,14 +151,16 @@ class Firewall(Router, discriminator="firewall"):
         More information in user guide and docstring for SimComponent._init_request_manager.
         """
         rm = super()._init_request_manager()
+        # like every other route of a node, the zone ACLs are only served while the firewall is switched on
+        _node_is_on = self._NodeIsOnValidator(node=self)
         self._internal_acl_request_manager = RequestManager()
-        rm.add_request("internal", RequestType(func=self._internal_acl_request_manager))
+        rm.add_request("internal", RequestType(func=self._internal_acl_request_manager, validator=_node_is_on))
 
         self._dmz_acl_request_manager = RequestManager()
-        rm.add_request("dmz", RequestType(func=self._dmz_acl_request_manager))
+        rm.add_request("dmz", RequestType(func=self._dmz_acl_request_manager, validator=_node_is_on))
 
         self._external_acl_request_manager = RequestManager()
-        rm.add_request("external", RequestType(func=self._external_acl_request_manager))
+        rm.add_request("external", RequestType(func=self._external_acl_request_manager, validator=_node_is_on))
 
         self._internal_inbound_acl_request_manager = RequestManager()
         self._internal_outbound_acl_request_manager = RequestManager()
